@@ -7,6 +7,7 @@ import (
 
 	auctypes "github.com/comdex-official/comdex/x/auctionsV2/types"
 	lendtypes "github.com/comdex-official/comdex/x/lend/types"
+	liqtypes "github.com/comdex-official/comdex/x/liquidationsV2/types"
 
 	"vh/sim"
 )
@@ -42,7 +43,8 @@ func (f *Fix) Config() M {
 	for _, a := range f.Assets {
 		rp, _ := k.GetAssetRatesParams(ctx, a.ID)
 		assets = append(assets, M{"id": int64(a.ID), "dec": a.Dec, "c": int64(a.CID), "ltv": frac(rp.Ltv), "eltv": frac(rp.ELtv),
-			"liq": frac(rp.LiquidationThreshold), "stable": rp.EnableStableBorrow})
+			"liq": frac(rp.LiquidationThreshold), "eliq": frac(rp.ELiquidationThreshold), "pen": frac(rp.LiquidationPenalty),
+			"epen": frac(rp.ELiquidationPenalty), "bonus": frac(rp.LiquidationBonus), "stable": rp.EnableStableBorrow})
 	}
 	var pools []M
 	for _, p := range k.GetPools(ctx) {
@@ -68,7 +70,15 @@ func (f *Fix) Config() M {
 	for _, m := range k.GetAllAssetToPair(ctx) {
 		a2p = append(a2p, M{"asset": int64(m.AssetID), "pool": int64(m.PoolID), "pairs": ids(m.PairID)})
 	}
-	return M{"assets": assets, "pools": pools, "pairs": pairs, "a2p": a2p, "users": f.V.Users, "app": int64(f.App), "pu": int64(PU), "v": f.V.Name}
+	wl, _ := f.E.App.NewliqKeeper.GetLiquidationWhiteListing(ctx, f.App)
+	prem, disc := []int64{1, 1}, []int64{1, 1}
+	if wl.DutchAuctionParam != nil {
+		prem, disc = frac(wl.DutchAuctionParam.Premium), frac(wl.DutchAuctionParam.Discount)
+	}
+	ap, _ := f.E.App.NewaucKeeper.GetAuctionParams(ctx)
+	return M{"assets": assets, "pools": pools, "pairs": pairs, "a2p": a2p, "users": f.V.Users, "app": int64(f.App), "pu": int64(PU), "v": f.V.Name,
+		"batch": int64(f.E.App.NewliqKeeper.GetParams(ctx).LiquidationBatchSize), "premium": prem, "discount": disc,
+		"dur": int64(ap.AuctionDurationSeconds), "dutch": wl.IsDutchActivated}
 }
 
 func (f *Fix) poolModule(ctx sdk.Context, pool uint64) string {
@@ -152,14 +162,35 @@ func (f *Fix) Project(e *sim.Env) M {
 		auc = append(auc, M{"asset": int64(a.ID), "amt": bal(sim.ModAddr(auctypes.ModuleName), a.Denom)})
 		cs = append(cs, M{"asset": int64(a.ID), "amt": i64(bank.GetSupply(ctx, a.CDenom).Amount)})
 	}
+	// V2 liquidation / auction records of lend-initiated seizures
+	lvs := []M{}
+	for _, lv := range e.App.NewliqKeeper.GetLockedVaults(ctx) {
+		if lv.InitiatorType != "lend" {
+			continue
+		}
+		lvs = append(lvs, M{"id": int64(lv.LockedVaultId), "b": int64(lv.OriginalVaultId), "owner": f.name(lv.Owner), "coll": i64(lv.CollateralToken.Amount),
+			"collA": f.assetOfDenom(lv.CollateralToken.Denom), "debt": i64(lv.DebtToken.Amount), "target": i64(lv.TargetDebt.Amount), "debtA": f.assetOfDenom(lv.TargetDebt.Denom),
+			"fee": i64(lv.FeeToBeCollected), "bonus": i64(lv.BonusToBeGiven), "ikeeper": lv.IsInternalKeeper, "keeper": f.name(lv.InternalKeeperAddress), "dutch": lv.AuctionType})
+	}
+	sort.Slice(lvs, func(i, j int) bool { return lvs[i]["id"].(int64) < lvs[j]["id"].(int64) })
 	aucs := []M{}
 	for _, a := range e.App.NewaucKeeper.GetAuctions(ctx) {
 		lv, _ := e.App.NewliqKeeper.GetLockedVault(ctx, a.AppId, a.LockedVaultId)
-		aucs = append(aucs, M{"id": int64(a.AuctionId), "b": int64(lv.OriginalVaultId), "debt": i64(a.DebtToken.Amount), "da": f.assetOfDenom(a.DebtToken.Denom),
-			"col": i64(a.CollateralToken.Amount), "lend": lv.InitiatorType == "lend"})
+		aucs = append(aucs, M{"id": int64(a.AuctionId), "lv": int64(a.LockedVaultId), "b": int64(lv.OriginalVaultId), "debtLeft": i64(a.DebtToken.Amount), "debtA": f.assetOfDenom(a.DebtToken.Denom),
+			"collLeft": i64(a.CollateralToken.Amount), "collA": f.assetOfDenom(a.CollateralToken.Denom), "lend": lv.InitiatorType == "lend", "dutch": a.AuctionType,
+			"price": sim.Limbs(a.CollateralTokenAuctionPrice.BigInt()), "init": sim.Limbs(a.CollateralTokenInitialPrice.BigInt()), "bonusLeft": i64(a.BonusAmount),
+			"start": int64(a.StartTime.Sub(sim.GenesisTime).Seconds()), "end": int64(a.EndTime.Sub(sim.GenesisTime).Seconds())})
 	}
+	sort.Slice(aucs, func(i, j int) bool { return aucs[i]["id"].(int64) < aucs[j]["id"].(int64) })
+	kb := []M{}
+	for _, a := range f.Assets {
+		kb = append(kb, M{"asset": int64(a.ID), "amt": bal(e.Users["kp"], a.Denom)})
+	}
+	ks, _ := e.App.EsmKeeper.GetKillSwitchData(ctx, f.App)
+	off, _ := e.App.NewliqKeeper.GetLiquidationOffsetHolder(ctx, liqtypes.VaultLiquidationsOffsetPrefix, 1)
 	m := M{"nl": int64(k.GetUserLendIDCounter(ctx)), "nb": int64(k.GetUserBorrowIDCounter(ctx)), "price": price, "lends": lends, "borrows": borrows,
 		"stats": stats, "pb": pb, "ub": ub, "res": res, "rout": rout}
-	x := M{"t": int64(e.Time.Sub(sim.GenesisTime).Seconds()), "h": e.Height, "xb": xb, "auc": auc, "cs": cs, "aucs": aucs}
+	x := M{"t": int64(e.Time.Sub(sim.GenesisTime).Seconds()), "h": e.Height, "xb": xb, "auc": auc, "cs": cs, "aucs": aucs, "lv": lvs, "kb": kb,
+		"ks": ks.BreakerEnable, "off": int64(off.CurrentOffset)}
 	return M{"m": m, "x": x}
 }
